@@ -68,10 +68,13 @@ package s2
 //@   ensures [last] len(result) > 0 ==> vcHi(result[len(result)-1]) + 2 == uint64(end)
 //@   ensures [contiguous] forall k int :: 0 < k && k < len(result) ==> vcHi(result[k-1]) + 2 == vcLo(result[k])
 //@   ensures [nonempty-if-less] begin != end ==> len(result) > 0
+//@   ensures [empty-if-equal] begin == end ==> len(result) == 0
+//@   ensures [sorted] forall k int :: 0 < k && k < len(result) ==> result[k-1] < result[k]
 //@   loop 1 (id CellID, cu CellUnion): invariant [id] id == end || (vcValid(id) && vcHi(id) < uint64(end))
 //@   loop 1: invariant [tiled-valid] forall k int :: 0 <= k && k < len(cu) ==> vcValid(cu[k])
 //@   loop 1: invariant [tiled-contig!] forall k int :: 0 < k && k < len(cu) ==> vcHi(cu[k-1]) + 2 == vcLo(cu[k])
 //@   loop 1: invariant [ends] (len(cu) > 0 ==> vcLo(cu[0]) == uint64(begin) && vcHi(cu[len(cu)-1]) + 2 == vcLo(id)) && (len(cu) == 0 ==> vcLo(id) == uint64(begin) || (id == end && begin == end))
+//@   loop 1: invariant [started] len(cu) > 0 ==> begin != end
 //@   loop 1: decreases! int((uint64(end) - vcLo(id)) >> 1)
 
 // ---------------------------------------------------------------- CellIndex contents iteration
